@@ -94,19 +94,35 @@ impl<'s> StackTrace<'s> {
 
 impl Display for StackTrace<'_> {
     fn fmt(&self, f: &mut Formatter<'_>) -> FmtResult {
-        if let Some(exception) = &self.exception {
-            writeln!(f, "{}", exception)?;
-        }
+        // Iterate over the cause chain instead of recursing, it can be arbitrarily deep.
+        let mut current = Some(self);
+        while let Some(trace) = current {
+            if let Some(exception) = &trace.exception {
+                writeln!(f, "{}", exception)?;
+            }
 
-        for frame in &self.frames {
-            writeln!(f, "    {}", frame)?;
-        }
+            for frame in &trace.frames {
+                writeln!(f, "    {}", frame)?;
+            }
 
-        if let Some(cause) = &self.cause {
-            write!(f, "Caused by: {}", cause)?;
+            current = trace.cause.as_deref();
+            if current.is_some() {
+                write!(f, "Caused by: ")?;
+            }
         }
 
         Ok(())
+    }
+}
+
+impl Drop for StackTrace<'_> {
+    fn drop(&mut self) {
+        // Unlink the cause chain iteratively, the default recursive drop would
+        // exhaust the stack on very deep chains.
+        let mut next = self.cause.take();
+        while let Some(mut cause) = next {
+            next = cause.cause.take();
+        }
     }
 }
 
